@@ -1059,6 +1059,21 @@ func (m *MayPanic) checkCallPreconds(c *ast.CallExpr, f mpFacts) {
 			if m.maybeNil(a, -1) {
 				m.report(PKNilDeref, a, false, fmt.Sprintf("%s may be nil and %s dereferences this parameter unconditionally (%s)", es(a), fn.Name(), p.Expr), m.rootParam(a), 0)
 			} else if id, ok := a.(*ast.Ident); ok {
+				if v, _ := m.info.Uses[id].(*types.Var); v != nil && m.fd != nil && isParamOf(m.info, m.fd, v) && f["clean:"+id.Name] > 0 {
+					// the caller's own parameter handed on: the obligation moves to this function's callers
+					if cur, ok := m.info.Defs[m.fd.Name].(*types.Func); ok && !m.frozen {
+						idx := paramIdx(m.info, m.fd, v)
+						dup := false
+						for _, q := range m.Preconds[cur] {
+							if q.Param == idx && q.Kind == PKNilDeref {
+								dup = true
+							}
+						}
+						if !dup {
+							m.Preconds[cur] = append(m.Preconds[cur], Precond{Param: idx, Kind: PKNilDeref, Expr: es(c.Fun) + "(" + id.Name + ")", Pos: a.Pos()})
+						}
+					}
+				}
 				if v, _ := m.info.Uses[id].(*types.Var); v != nil && m.fd != nil && !isParamOf(m.info, m.fd, v) {
 					for _, as := range AssignmentsTo(m.info, m.fd.Body, v) {
 						if as.Rhs != nil && !as.IsRange && m.maybeNil(as.Rhs, as.ResultIx) {
@@ -1801,9 +1816,10 @@ func upgradeRx(f mpFacts) mpFacts {
 // Run analyses every function of the package (two rounds so that parameter preconditions
 // discovered in round one are checked at call sites in round two).
 func (m *MayPanic) Run() {
-	for round := 0; round < 2; round++ {
+	const collect = 4 // rounds in which preconditions are collected (they travel one call level per round)
+	for round := 0; round <= collect; round++ {
 		m.Sites = nil
-		if round == 1 {
+		if round == collect {
 			for fn, ps := range m.Preconds {
 				seen := map[string]bool{}
 				var out []Precond
